@@ -13,7 +13,12 @@ const HEXU: &[u8; 16] = b"0123456789ABCDEF";
 fn check_eisa(ctx: &Ctx, id: &[u8; 7]) {
     let s = unsafe { std::str::from_utf8_unchecked(id) };
     let mut sink = Small::new();
-    EISAName::new(s).to_aml_bytes(&mut sink);
+    // a valid identifier must be accepted: a refusal is reported here (not left to the top-level guard, which would stop
+    // the sweep at the first one)
+    if let Err(m) = catch(std::panic::AssertUnwindSafe(|| EISAName::new(s).to_aml_bytes(&mut sink))) {
+        ctx.violation_sized("eisa:refused", 0, || format!("valid EISA id {} refused: {}", s, m), || json!({"family":"eisa","id":s}));
+        return;
+    }
     let ok = match int_decode(sink.bytes()) {
         Some((v, used)) if used == sink.n && v <= u32::MAX as u64 => eisa_decompress(v as u32) == *id,
         _ => false,
